@@ -1,23 +1,23 @@
 SPECIFICATION SubSpec
 CONSTANTS
-  Keys = {"a", "b"}
+  Keys = {"a"}
   NonPub = {"join", "leave"}
-  Sizes = {0, 2, 3}
-  Delays = {TRUE, FALSE}
-  Lates = {TRUE, FALSE}
+  Sizes = {2}
+  Delays = {TRUE}
+  Lates = {FALSE}
   Threads = {1}
-  MaxAdds = 4
+  MaxAdds = 2
   MaxEnds = 100
   AtomicAdd = TRUE
   SplitGet = FALSE
   RecheckOnStore = TRUE
   StaleTimers = FALSE
   EarlyDel = TRUE
-  MaxGen = 3
+  MaxGen = 2
   BatchedKinds = {"pub", "join", "leave", "other"}
   SubSplit = FALSE
-  CfgSwitch = "none"
+  CfgSwitch = "direct"
 VIEW SubView
-INVARIANTS TypeOK LatUnique PendingAgree TimerSane NoLeftover WireOrdered
-PROPERTIES GenBracket OrderPreserved LatestCoalesced EndDiscards SizeExact
+INVARIANTS TypeOK WireOrdered
+
 CHECK_DEADLOCK FALSE
